@@ -20,6 +20,7 @@ from ..snapshot import sdig
 from pybrops.popgen.bvmat.DenseBreedingValueMatrix import DenseBreedingValueMatrix
 from pybrops.popgen.bvmat.DenseEstimatedBreedingValueMatrix import DenseEstimatedBreedingValueMatrix
 from pybrops.popgen.bvmat.DenseGenomicEstimatedBreedingValueMatrix import DenseGenomicEstimatedBreedingValueMatrix
+from pybrops.core.mat.DenseScaledMatrix import DenseScaledMatrix
 
 PROP = "C15"
 RUNS = {"quick": 40000, "thorough": 1500000}
@@ -77,6 +78,11 @@ def generate(R, tier):
                                      (cols[t][0] if styles[t] == "const" and R.random() < 0.5 and cols[t] and not math.isnan(cols[t][0]) else
                                       R.choice([R.gauss(0, 1), 100.0 * R.gauss(0, 1), cols[t][0] + R.gauss(0, 1) if cols[t] and not math.isnan(cols[t][0]) else 0.0])))
                                     for t in range(ntr)] for _ in range(k + 1)]})
+    if R.random() < 0.12:
+        # the scaling base class itself: histories of rescale / unscale / transform round trips
+        sst = [{"op": R.choice(["rescale", "rescale", "unscale", "roundtrip"]), "inplace": R.random() < 0.6} for _ in range(R.randint(1, 6))]
+        return {"cls": "SCALED", "raw": raw, "styles": styles, "taxa": False, "taxa_grp": False, "trait": False, "steps": sst,
+                "prescaled": (None if R.random() < 0.5 else {"loc": [R.choice([0.0, 1.5, -20.0, 1e6]) for _ in range(ntr)], "scl": [R.choice([1.0, 2.0, 0.25, 1e3]) for _ in range(ntr)]})}
     return {"cls": R.choice(sorted(CLS)), "raw": raw, "styles": styles, "taxa": R.random() < 0.8, "taxa_grp": R.random() < 0.7, "trait": R.random() < 0.8,
             "steps": steps}
 
@@ -164,7 +170,73 @@ def _build(cls, rows, ntr, sc, R, start):
     return cls.from_numpy(raw, taxa=taxa, taxa_grp=grp, trait=trait), taxa, grp
 
 
+def _exec_scaled(sc):
+    """DenseScaledMatrix: whatever sequence of rescale / unscale / transform round trips, the unscaled values are the raw ones."""
+    ntr = len(sc["styles"])
+    raw = numpy.array(sc["raw"], dtype=float).reshape(len(sc["raw"]), ntr)
+    V, log, faults, probes, kinds = [], [], {}, {}, []
+    C0 = "DenseScaledMatrix"
+    import warnings
+    with warnings.catch_warnings():
+        warnings.simplefilter("ignore")
+        ps = sc.get("prescaled")
+        if ps:
+            loc, scl = numpy.array(ps["loc"], dtype=float), numpy.array(ps["scl"], dtype=float)
+            o = DenseScaledMatrix((raw - loc[None, :]) / scl[None, :], location=loc.copy(), scale=scl.copy())
+            faults["constructed_prescaled"] = 1
+        else:
+            o = DenseScaledMatrix(raw.copy(), location=numpy.zeros(ntr), scale=numpy.ones(ntr))
+        budget = 16 * EPS * (numpy.abs(numpy.nan_to_num(raw)) + (numpy.abs(numpy.asarray(o.location))[None, :] if ps else 0.0))
+        nact = 0
+        for ix, st in enumerate(sc["steps"]):
+            name = st["op"]
+            C = "%s.%s" % (C0, name)
+            kinds.append("%s:%d" % (name, int(st["inplace"])))
+            try:
+                if name == "rescale":
+                    r = o.rescale(inplace=st["inplace"])
+                elif name == "unscale":
+                    r = o.unscale(inplace=st["inplace"])
+                else:
+                    probe = numpy.nan_to_num(raw.copy())
+                    t = o.transform(probe.copy(), copy=True)
+                    back = o.untransform(t, copy=True)
+                    tol = 16 * EPS * (numpy.abs(probe) + numpy.abs(numpy.asarray(o.location))[None, :] + numpy.abs(numpy.asarray(o.scale))[None, :] * numpy.abs(t))
+                    if numpy.any(numpy.abs(back - probe) > tol):
+                        V.append(viol("transform-round-trip", C0 + ".transform", "values", "step %d: untransform(transform(x)) differs from x" % ix, step=ix))
+                        break
+                    r = None
+            except Exception as e:
+                V.append(viol("scaled-op-completes", C, "raises:%s" % type(e).__name__, "step %d: %s: %s" % (ix, type(e).__name__, e), step=ix))
+                break
+            nact += 1
+            loc, scl = numpy.asarray(o.location, dtype=float), numpy.asarray(o.scale, dtype=float)
+            cur = numpy.asarray(o.mat, dtype=float) * scl[None, :] + loc[None, :]
+            budget = budget + 16 * EPS * (numpy.abs(loc)[None, :] + numpy.abs(scl)[None, :] * numpy.abs(numpy.nan_to_num(numpy.asarray(o.mat, dtype=float))))
+            n0, n1 = numpy.isnan(raw), numpy.isnan(cur)
+            if not numpy.array_equal(n0, n1):
+                V.append(viol("missing-stays-missing", C, "nan-pattern", "step %d: NaN pattern changed" % ix, step=ix))
+                break
+            if numpy.any((numpy.abs(cur - raw) > budget) & ~n0):
+                i, t = numpy.argwhere((numpy.abs(cur - raw) > budget) & ~n0)[0]
+                V.append(viol("unscale-reproduces-raw", C, "history", "step %d: after %s the stored value of cell (%d,%d) unscales to %r, raw value %r (location %s scale %s)" %
+                              (ix, kinds, i, t, float(cur[i, t]), float(raw[i, t]), loc.tolist(), scl.tolist()), step=ix))
+                break
+            if name == "rescale" and st["inplace"]:
+                for t in range(ntr):
+                    col = raw[:, t]
+                    if len(col) and not numpy.isnan(col).any() and numpy.all(col == col[0]) and abs(scl[t] - 1.0) > 0 and numpy.all(numpy.abs(numpy.asarray(o.mat)[:, t]) <= 64 * EPS * (1 + abs(col[0]))):
+                        V.append(viol("constant-trait-unit-scale", C, "scale", "step %d: constant column %d rescaled with scale %r" % (ix, t, float(scl[t])), step=ix))
+                        break
+                if V:
+                    break
+            log.append([ix, name, adig(o.mat)])
+    return _out(sc, V, log, kinds, faults, probes, nact)
+
+
 def execute(sc):
+    if sc["cls"] == "SCALED":
+        return _exec_scaled(sc)
     cls = CLS[sc["cls"]]
     ntr = len(sc["styles"])
     R = random.Random(len(sc["raw"]) * 7919 + ntr)
@@ -259,7 +331,11 @@ def execute(sc):
             form = "%s%s" % ("gen" if gen else "spec", "-mut" if mut else "")
             if op == "select":
                 idx = [a[i] % n for i in range(min(k, n))] if n else []
-                arg = idx if st["argform"] != "ndarray" else numpy.array(idx, dtype=int)
+                # some indices given in their negative form
+                given = [v - n if (a[4] >> i) & 1 else v for i, v in enumerate(idx)]
+                arg = given if st["argform"] != "ndarray" else numpy.array(given, dtype=int)
+                if any(v < 0 for v in given):
+                    faults["negative_index"] = faults.get("negative_index", 0) + 1
                 exp = [rows[i] for i in idx]
                 expb = [budget[i] for i in idx]
                 call = (lambda x: x.select(arg, axis=0)) if gen else (lambda x: x.select_taxa(arg))
